@@ -224,8 +224,11 @@ func g7fill(r g7rnd, v reflect.Value, depth int) {
 			n := int(v.MethodByName("Len").Call(nil)[0].Int())
 			v.MethodByName("EnsureCapacity").Call([]reflect.Value{reflect.ValueOf(n + r.IntN(3))})
 		}
-		if depth < 7 {
+		if depth < 13 {
 			k := r.IntN(3)
+			if depth >= 7 && k > 1 { // keep deep payload trees small
+				k = 1
+			}
 			if k == 0 && int(v.MethodByName("Len").Call(nil)[0].Int()) == 0 && r.IntN(4) != 0 {
 				k = 1
 			}
@@ -242,13 +245,12 @@ func g7fill(r g7rnd, v reflect.Value, depth int) {
 		return
 	}
 	names := g7methods(t)
+	var selectors []string
 	for _, n := range names { // setters, one-of selectors, optional removers
 		m := v.MethodByName(n)
 		switch {
 		case strings.HasPrefix(n, "SetEmpty") && m.Type().NumIn() == 0:
-			if r.IntN(4) == 0 {
-				m.Call(nil)
-			}
+			selectors = append(selectors, n)
 		case strings.HasPrefix(n, "Set") && m.Type().NumIn() == 1 && g7basic(m.Type().In(0)):
 			if r.IntN(3) != 0 {
 				m.Call([]reflect.Value{g7rand(r, m.Type().In(0))})
@@ -258,6 +260,9 @@ func g7fill(r g7rnd, v reflect.Value, depth int) {
 				m.Call(nil)
 			}
 		}
+	}
+	if len(selectors) > 0 && r.IntN(2) == 0 { // one-of: select ONE alternative at random
+		v.MethodByName(selectors[r.IntN(len(selectors))]).Call(nil)
 	}
 	for _, n := range names { // owned containers and nested messages
 		m := v.MethodByName(n)
@@ -285,6 +290,27 @@ func g7panics(f func()) (p bool) {
 
 var g7mut = []string{"Set", "Put", "Remove", "Append", "MoveTo", "MoveAndAppendTo", "CopyTo", "EnsureCapacity", "Sort", "Clear", "FromRaw"}
 
+// g7valid: the wrapper is backed by data (a getter of a one-of alternative that is not the current one returns a wrapper
+// without orig: its own readers panic)
+func g7valid(c reflect.Value) bool {
+	t := c.Type()
+	return !g7panics(func() {
+		if g7has(t, "Len") {
+			c.MethodByName("Len").Call(nil)
+		}
+		if g7leaf(t) {
+			c.MethodByName("AsRaw").Call(nil)
+			return
+		}
+		for _, n := range g7methods(t) {
+			m := c.MethodByName(n)
+			if !g7skip[n] && m.Type().NumIn() == 0 && m.Type().NumOut() == 1 && g7basic(m.Type().Out(0)) {
+				m.Call(nil)
+			}
+		}
+	})
+}
+
 // g7children: the positions reachable from v through one accessor (every getter of a wrapper, first and last
 // element of a slice, every value of a map, the container of a value)
 func g7children(v reflect.Value) (next []reflect.Value, labels []string) {
@@ -305,7 +331,7 @@ func g7children(v reflect.Value) (next []reflect.Value, labels []string) {
 			}
 			if ot := m.Type().Out(0); g7leaf(ot) || g7wrapper(ot) {
 				var c reflect.Value
-				if !g7panics(func() { c = m.Call(nil)[0]; _ = g7str(c) }) && !strings.Contains(g7str(c), "!") {
+				if !g7panics(func() { c = m.Call(nil)[0] }) && g7valid(c) {
 					next = append(next, c)
 					labels = append(labels, n+"()")
 				}
@@ -396,12 +422,15 @@ func g7mutators(r g7rnd, v reflect.Value) (names []string, calls []func()) {
 	return names, calls
 }
 
+var g7visited = map[string]int{}
+
 // g7roSweep: EVERY mutator at EVERY position reachable through the accessors of a read-only payload must panic
 func g7roSweep(r g7rnd, v reflect.Value, path string, depth int, report func(call string), count *int) {
 	if depth > 16 {
 		return
 	}
 	names, calls := g7mutators(r, v)
+	g7visited[v.Type().Name()] += len(calls)
 	for i, c := range calls {
 		*count++
 		if !g7panics(c) {
@@ -510,6 +539,10 @@ func TestVerifC07AllMsgsProfile(t *testing.T) {
 			count := 0
 			g7roSweep(rnd, p, p.Type().Name(), 0, func(call string) { viol("mutator-on-read-only-did-not-panic", "call="+call) }, &count)
 			out.Linef("stat ro_mutator_calls %d", count)
+			for k, n := range g7visited {
+				out.Linef("stat ro_at_%s %d", k, n)
+			}
+			g7visited = map[string]int{}
 			if got := g7str(p); got != before {
 				viol("read-only-payload-changed", "")
 			}
